@@ -21,7 +21,14 @@ def out_path(tool):
 # directory, non-ASCII
 NAME_STYLES = (("/simfs/in.img", "/simfs/out"), ("/simfs/my dir/in file.img", "/simfs/my dir/out file"),
                ("in.img", "out"), ("/simfs/\u00fc/\u00efn.img", "/simfs/\u00fc/\u00f6ut"),
-               ("/simfs/a/b/../in.img", "/simfs/a/./out"))
+               ("/simfs/a/b/../in.img", "/simfs/a/./out"),
+               # names just inside NAME_MAX (255 bytes): 251 and 252 bytes long, ASCII and two-byte
+               ("/simfs/" + "n" * 247 + ".img", "/simfs/" + "o" * 248),
+               ("/simfs/" + "\u00e9" * 123 + "n.img", "/simfs/" + "\u00e9" * 124),
+               # shell metacharacters that are ordinary characters in a file name; a sibling file
+               # that a wildcard expansion of the name would match sits next to it
+               ("/simfs/g/pic[1]?*.img", "/simfs/g/out[1]"))
+SIBLINGS = {7: ("/simfs/g/pic1xy.img",)}
 
 
 def paths_for(tool, style):
@@ -196,16 +203,20 @@ def build_argv(opts, env, tool=None):
 class Run:
     __slots__ = ("tool", "argv", "outcome", "out", "out_present", "cls", "info", "steps",
                  "events", "event_digest", "short", "dmg_site", "consumed", "app_reads",
-                 "raw_reads", "raw_writes", "stdout_text", "success", "removed", "budget")
+                 "raw_reads", "raw_writes", "stdout_text", "success", "removed", "budget", "threads")
 
     def signature_site(self):
         s = self.short or self.dmg_site
         return "%s: %s" % (s[0], s[1]) if s else "-"
 
     def digest(self):
+        """Everything the determinism self-checks compare.  Loop counts and the stream-event log
+        are part of it only for single-threaded runs: a tool that converts rows on a thread
+        pool produces the same bytes with a scheduling-dependent count."""
+        trace = (self.steps, self.event_digest) if not self.threads else ("threads",)
         return digest(self.tool, self.argv, self.outcome.as_tuple(), self.out_present,
-                      self.out if self.out is not None else b"", self.cls, self.steps,
-                      self.event_digest, self.short, self.dmg_site)
+                      self.out if self.out is not None else b"", self.cls, trace,
+                      self.short, self.dmg_site)
 
 
 def simulate(tool, opts, data: bytes, env: Env, damaged=(), boundaries=(), budget=None, wall=None) -> Run:
@@ -230,12 +241,15 @@ def simulate(tool, opts, data: bytes, env: Env, damaged=(), boundaries=(), budge
             w.fs.fifos[w._vpath(inp, writing=True)] = (bytes(data), sin, list(damaged))
         elif not use_stdin:
             w.fs.put(w._vpath(inp, writing=True), data, damaged)
+        for sib in SIBLINGS.get(env.names % len(NAME_STYLES), ()):
+            w.fs.put(sib, bytes(len(data)))
         if env.out_kind == "path" and env.out_pre and not env.inplace:
             import random as _r
             w.fs.put(w._vpath(outp, writing=True), _r.Random(env.out_seed).randbytes(env.out_pre))
         o = run_tool(w, tool, argv, budget, wall, env.opt)
     r = Run()
     r.tool, r.argv, r.outcome, r.steps, r.budget = tool, argv, o, o.steps, budget
+    r.threads = w.threads_started
     if env.out_kind == "path":
         r.out = w.fs.get(w._vpath(outp, writing=True))
         r.out_present = r.out is not None
